@@ -91,6 +91,15 @@ def window_selection(chk, prog, rule):
             if ok:
                 chk.ok(rule, where, construct, "rows selected by comparing the Date column with the window")
             else:
+                if "sort_values(" in construct:
+                    chk.violation(rule, where, construct, "the rows are ordered by the *label* 'Date': when the user's table is indexed by its own Date column the label is "
+                                  "ambiguous and pandas raises - re-indexing the weather table must not matter (order through the column's values: argsort)", loc=rw.loc(st))
+                    base = st.value if isinstance(st, ast.Assign) else None
+                    while isinstance(base, (ast.Call, ast.Attribute, ast.Subscript)):
+                        base = base.func if isinstance(base, ast.Call) else base.value
+                    if isinstance(base, ast.Name):
+                        work.append((base, d))      # keep following the frame: the bounds are reported on their own
+                    continue
                 chk.violation(rule, where, construct,
                               "the simulation window is cut out of the weather table by something else than a comparison on the Date "
                               "column (index labels / row positions depend on how the table happens to be indexed)", loc=rw.loc(st))
@@ -103,15 +112,45 @@ def window_selection(chk, prog, rule):
         chk.violation(rule, where, "window bounds", "the selection does not bound the rows by both the start and the end date", loc=rw.loc())
 
 
+def is_argsort_of(e, frame: str, col: str = None) -> bool:
+    """e is `<frame>.<col>.argsort(...)[.values]` / `np.argsort(<frame>.<col>[.values], ...)`: a permutation of range(len(frame))"""
+    while isinstance(e, ast.Attribute) and e.attr in ("values", "array") or (isinstance(e, ast.Call) and isinstance(e.func, ast.Attribute) and e.func.attr == "to_numpy"):
+        e = e.value if isinstance(e, ast.Attribute) else e.func.value
+    src = None
+    if isinstance(e, ast.Call) and isinstance(e.func, ast.Attribute) and e.func.attr == "argsort" and not (isinstance(e.func.value, ast.Name) and e.func.value.id in ("np", "numpy")):
+        src = e.func.value
+    elif isinstance(e, ast.Call) and norm(e.func) in ("np.argsort", "numpy.argsort") and e.args:
+        src = e.args[0]
+    if src is None:
+        return False
+    while isinstance(src, ast.Attribute) and src.attr in ("values", "array"):
+        src = src.value
+    if isinstance(src, ast.Attribute) and isinstance(src.value, ast.Name) and src.value.id == frame:
+        return col is None or src.attr == col
+    if isinstance(src, ast.Subscript) and isinstance(src.value, ast.Name) and src.value.id == frame and isinstance(src.slice, ast.Constant):
+        return col is None or src.slice.value == col
+    return False
+
+
 def _row_permutation(st):
     """the frame name X for `Y = X.sort_values("Date"...)[.reset_index(drop=True)]` / `Y = X.reset_index(drop=True)` / `Y = X.sort_index()`: same rows, other order"""
     if not (isinstance(st, ast.Assign) and isinstance(st.targets[0], ast.Name)):
         return None
     v = st.value
+    # X.iloc[<argsort of X's Date column>]: a permutation of the rows of X
+    if isinstance(v, ast.Subscript) and isinstance(v.value, ast.Attribute) and v.value.attr == "iloc" and isinstance(v.value.value, ast.Name) \
+            and is_argsort_of(v.slice, v.value.value.id, "Date"):
+        return v.value.value
     while isinstance(v, ast.Call) and isinstance(v.func, ast.Attribute) and v.func.attr in ("sort_values", "reset_index", "sort_index", "copy"):
         if v.func.attr == "sort_values":
             by = v.args[0] if v.args else next((k.value for k in v.keywords if k.arg == "by"), None)
             if not (isinstance(by, ast.Constant) and by.value == "Date"):
+                return None
+            # a sort by the *label* "Date" is ambiguous (ValueError) when the user's index is itself named Date: acceptable only on a
+            # frame whose index has just been dropped
+            inner = v.func.value
+            if not (isinstance(inner, ast.Call) and isinstance(inner.func, ast.Attribute) and inner.func.attr == "reset_index"
+                    and any(k.arg == "drop" and isinstance(k.value, ast.Constant) and k.value.value is True for k in inner.keywords)):
                 return None
         v = v.func.value
     return v if isinstance(v, ast.Name) and v is not st.value else None
@@ -263,4 +302,73 @@ def whole_row_ops(chk, prog, rule: str) -> int:
                     else:
                         chk.violation(rule, where, norm(c)[:80], f"{c.func.attr}() on the whole weather frame looks at every column: an unrelated extra column with "
                                       "missing values removes days (shifts the positional day-of-season lookups) or raises", loc=fi.loc(c))
+    return n
+
+
+
+def scratch_columns(chk, prog, rule: str) -> int:
+    """a column the model adds for its own bookkeeping (`F['gdd'] = ...`, `F.loc[mask, 'season'] = ...`) must not land in a frame that still
+    carries the user's columns: an unrelated user column of that name is overwritten in part (its other values survive and are read back) or
+    refuses the values (dtype). The frame written to must be built by the model (a constructor call) or restricted by name to required
+    columns (`F[[...literal required names...]]`); reaching definitions decide which frame a name holds at the store."""
+    from ..rdef import flow_of, ENTRY
+    n = 0
+    formals = weather_frame_formals(prog)
+    for key, formal in sorted(formals):
+        fi = prog.funcs[key]
+        flow = flow_of(fi)
+        cfg = flow.cfg
+        where = f"{fi.module}:{fi.qualname}"
+
+        def carries_user_columns(name, at, depth=0):
+            if depth > 6:
+                return True
+            for d in flow.defs_reaching(name, at):
+                if d == ENTRY:
+                    if name == formal:
+                        return True
+                    continue
+                a = cfg.nodes[d].ast
+                if not isinstance(a, ast.Assign):
+                    continue
+                v = a.value
+                # restricted by name to required columns
+                if isinstance(v, ast.Subscript) and isinstance(v.slice, ast.List) and all(isinstance(e, ast.Constant) and e.value in REQUIRED for e in v.slice.elts):
+                    continue
+                core = v
+                while isinstance(core, (ast.Call, ast.Attribute, ast.Subscript)):
+                    if isinstance(core, ast.Call) and norm(core.func) in ("pd.DataFrame", "pandas.DataFrame", "DataFrame"):
+                        core = None
+                        break
+                    core = core.func if isinstance(core, ast.Call) else core.value
+                if core is None:
+                    continue            # a frame the model built itself
+                if isinstance(core, ast.Name) and carries_user_columns(core.id, d, depth + 1):
+                    return True
+            return False
+
+        for a in walk_no_nested(fi.node):
+            if not (isinstance(a, ast.Assign) and isinstance(a.targets[0], ast.Subscript)):
+                continue
+            t = a.targets[0]
+            col = frame = None
+            if isinstance(t.value, ast.Name) and isinstance(t.slice, ast.Constant) and isinstance(t.slice.value, str):
+                frame, col = t.value.id, t.slice.value
+            elif isinstance(t.value, ast.Attribute) and t.value.attr == "loc" and isinstance(t.value.value, ast.Name) and isinstance(t.slice, ast.Tuple) \
+                    and len(t.slice.elts) == 2 and isinstance(t.slice.elts[1], ast.Constant) and isinstance(t.slice.elts[1].value, str):
+                frame, col = t.value.value.id, t.slice.elts[1].value
+            if frame is None or col in REQUIRED:
+                continue
+            nid = flow.stmt_node.get(id(a))
+            if nid is None:
+                continue
+            # only frames that are (or may be) weather frames: the name has a definition chain to the formal, or is built from it
+            n += 1
+            chk.fn(key)
+            construct = norm(a)[:90]
+            if carries_user_columns(frame, nid):
+                chk.violation(rule, where, construct, f"the bookkeeping column '{col}' is written into a frame that still carries the user's columns: an unrelated column "
+                              f"named '{col}' in the weather table is overwritten in part or rejects the values", loc=fi.loc(a))
+            else:
+                chk.ok(rule, where, construct, f"'{col}' is a column of a frame the model built itself / restricted to the required columns")
     return n
